@@ -128,7 +128,7 @@ def happlyUpdate (s : HStore) (u : Update) (blockNumber baseTxCount oldestPreCon
       if r.length == 0 then
         let (h', a) := halloc s.heap next none
         ({ heap := h', inner := some { head := some a, length := chain.length } }, out)
-      else if blockNumber == r.tip + 1 then
+      else if blockNumber == succ64 r.tip then
         -- extend: `&node{preconfirmed: &next, parent: current.head}`
         let (h', a) := halloc s.heap next cur.head
         ({ heap := h', inner := some { head := some a, length := chain.length } }, out)
